@@ -141,4 +141,56 @@ theorem step_frame (nr : Bool) (s : Sys) (op : SysOp) (h : op = .reload → Fals
   | reloadPanic ids => exact (h2 ids rfl).elim
   | reload => exact (h rfl).elim
 
+theorem reload_notified (ver : FileSt → Ver) (c : Cfg) (file : Option FileSt) :
+    (reload ver c file).1.notified = c.notified + (if (reload ver c file).2 == .loaded then 1 else 0) := by
+  unfold reload
+  cases file with
+  | none =>
+    simp only []
+    split
+    · simp
+    · split <;> simp
+  | some f =>
+    simp only []
+    split
+    · simp
+    · split <;> simp
+
+theorem reloadN_notified (nr : Bool) (c : Cfg) (file : Option FileSt) :
+    (reloadN nr verFull c file).1.notified =
+      c.notified + (if notifies nr (reloadN nr verFull c file).2 then 1 else 0) := by
+  have h := reload_notified verFull c file
+  unfold reloadN notifies
+  cases nr with
+  | false => simpa using h
+  | true =>
+    simp only [Bool.true_and]
+    cases hr : (reload verFull c file).2 <;> simp [hr] at h ⊢ <;> omega
+
+/-- the configuration's own count of notification rounds is the number of notifying reloads of the
+    history -/
+theorem notified_is_rounds (nr : Bool) (s : Sys) (ops : List SysOp) :
+    (s.run nr ops).cfg.notified = s.cfg.notified + roundsOf (project nr s ops) := by
+  induction ops generalizing s with
+  | nil => simp [Sys.run, project, roundsOf]
+  | cons op r ih =>
+    simp only [Sys.run, List.foldl_cons] at ih ⊢
+    rw [ih (s.step nr op)]
+    cases op with
+    | edit f => simp [project, Sys.step]
+    | delete => simp [project, Sys.step]
+    | addObs n i => simp [project, Sys.step, roundsOf]
+    | reload =>
+      have hn := reloadN_notified nr s.cfg s.file
+      simp only [project]
+      split
+      · rename_i h; simp [Sys.step, roundsOf, hn, h]; omega
+      · rename_i h; simp [Sys.step, hn, h]
+    | reloadPanic ids =>
+      have hn := reloadN_notified nr s.cfg s.file
+      simp only [project]
+      split
+      · rename_i h; simp [Sys.step, roundsOf, hn, h]; omega
+      · rename_i h; simp [Sys.step, hn, h]
+
 end Conf
